@@ -407,11 +407,141 @@ func c06Space(name string, depth int, reduced bool) *core.Space {
 	}
 }
 
+// c06TagLayouts: several fields of one struct whose config tags overlap (a dotted name reaching into the
+// object or list another field provides), in every declaration order.
+func c06TagLayouts() *core.Space {
+	type inner struct {
+		D int
+		S string
+	}
+	type xStruct struct {
+		C inner
+		F int
+	}
+	type hStruct struct{ H int }
+	type spec struct {
+		tag string
+		val interface{}
+	}
+	menu := []spec{
+		{"x", xStruct{C: inner{D: 2, S: "a$b.c,{d}"}, F: 3}},
+		{"x.c.e", 11},
+		{"x.g", 12},
+		{"x.c", hStruct{H: 13}},
+		{"x.c.k.z", 14},
+		{"paths", []string{"/a", "/b"}},
+		{"paths.depth", 15},
+		{"paths.glob", "*.{log,txt}"},
+		{"x.l", []int{16, 17}},
+		{"y", uint64(1<<63 + 5)},
+		{"x.c.m", map[string]int{"k": 18}},
+		{"arr", [2]inner{{D: 19}, {S: "t"}}},
+		{"arr.1.d", 20},
+	}
+	// settings written by a spec (to exclude layouts defining one setting twice)
+	defines := func(sp spec) []string {
+		switch sp.tag {
+		case "x":
+			return []string{"x.c.d", "x.c.s", "x.f"}
+		case "x.c":
+			return []string{"x.c.h"}
+		case "arr":
+			return []string{"arr.0.d", "arr.0.s", "arr.1.d", "arr.1.s"}
+		}
+		return []string{sp.tag}
+	}
+	var layouts [][]int
+	var rec func(cur []int)
+	rec = func(cur []int) {
+		if len(cur) >= 2 {
+			layouts = append(layouts, append([]int{}, cur...))
+		}
+		if len(cur) == 3 {
+			return
+		}
+	next:
+		for i := range menu {
+			seen := map[string]bool{}
+			for _, j := range cur {
+				if j == i {
+					continue next
+				}
+				for _, d := range defines(menu[j]) {
+					seen[d] = true
+				}
+			}
+			for _, d := range defines(menu[i]) {
+				if seen[d] {
+					continue next
+				}
+			}
+			rec(append(cur, i))
+		}
+	}
+	rec(nil)
+	build := func(l []int) reflect.Value {
+		var fields []reflect.StructField
+		for k, i := range l {
+			fields = append(fields, reflect.StructField{Name: fmt.Sprintf("F%d", k), Type: reflect.TypeOf(menu[i].val), Tag: reflect.StructTag(fmt.Sprintf(`config:"%s"`, menu[i].tag))})
+		}
+		st := reflect.New(reflect.StructOf(fields)).Elem()
+		for k, i := range l {
+			st.Field(k).Set(reflect.ValueOf(menu[i].val))
+		}
+		return st
+	}
+	text := func(l []int) string {
+		s := ""
+		for _, i := range l {
+			s += fmt.Sprintf(" %T `config:%q`;", menu[i].val, menu[i].tag)
+		}
+		return "struct {" + s + " }"
+	}
+	return &core.Space{
+		Name: "overlapping-tag-layouts",
+		Size: len(layouts),
+		Text: func(i int) string { return text(layouts[i]) + " with PathSep(\".\")" },
+		Exec: func(i int) core.Result {
+			l := layouts[i]
+			var res core.Result
+			sig := "layout"
+			for _, j := range l {
+				sig += " " + menu[j].tag
+			}
+			pi := core.Guard(func() {
+				val := build(l)
+				opts := []ucfg.Option{ucfg.PathSep(".")}
+				cfg := ucfg.New()
+				if err := cfg.Merge(val.Interface(), opts...); err != nil {
+					res = core.Fail("layouts", "MERGE-REJECTED "+sig, fmt.Sprintf("Merge(%+v): %v", val.Interface(), err))
+					return
+				}
+				back := reflect.New(val.Type())
+				if err := cfg.Unpack(back.Interface(), opts...); err != nil {
+					res = core.Fail("layouts", "UNPACK-FAILED "+sig, fmt.Sprintf("value %+v: %v", val.Interface(), firstLine(err.Error())))
+					return
+				}
+				w, g := c06Norm(val), c06Norm(back.Elem())
+				if !reflect.DeepEqual(w, g) {
+					res = core.Fail("layouts", "NOT-IDENTITY "+sig, fmt.Sprintf("original %+v came back as %+v", val.Interface(), back.Elem().Interface()))
+					return
+				}
+				res.Nontrivial = true
+				res.Outcome = fmt.Sprintf("fields=%d", len(l))
+			})
+			if pi != nil {
+				return apiPanic("layouts", pi)
+			}
+			return res
+		},
+	}
+}
+
 func init() {
 	core.Register(&core.Check{
 		ID:    "C06",
 		Level: "exploration",
-		Rule:  "struct types built with reflect.StructOf from 19 leaf kinds (bool, all int/uint widths, floats, string, time.Duration, *regexp.Regexp, named int/string types) x 16 wrappers (pointer, nil/empty/1/2-element slices, arrays, nil/empty/1/2-entry maps, slices of pointers, nested structs by value and pointer, inline struct, inline map) nested up to the stated depth x 4 tag forms (none, rename, dotted name with PathSep, ignore) with values from per-kind boundary menus (zero, +-1, min, max, MaxInt64+1, MaxFloat, subnormals, strings containing $ . , { } [ ] quotes and keywords, extreme durations) are merged into an empty config and unpacked into a zero value of the same type; non-trivial = every generated case (cases are distinct type/value combinations)",
+		Rule:  "struct types built with reflect.StructOf from 19 leaf kinds (bool, all int/uint widths, floats, string, time.Duration, *regexp.Regexp, named int/string types) x 16 wrappers (pointer, nil/empty/1/2-element slices, arrays, nil/empty/1/2-entry maps, slices of pointers, nested structs by value and pointer, inline struct, inline map) nested up to the stated depth x 4 tag forms (none, rename, dotted name with PathSep, ignore) with values from per-kind boundary menus (zero, +-1, min, max, MaxInt64+1, MaxFloat, subnormals, strings containing $ . , { } [ ] quotes and keywords, extreme durations) are merged into an empty config and unpacked into a zero value of the same type; plus every ordered layout of 2 or 3 fields from a menu of 13 overlapping config tags (an object x next to x.c.e, x.g, x.c, x.c.k.z, x.l, x.c.m; a list paths next to paths.depth, paths.glob; an array arr next to arr.1.d) that defines no setting twice; non-trivial = every generated case (cases are distinct type/value combinations)",
 		Assumptions: []string{
 			"comparison equates nil and empty collections, compares regexps by text and follows pointers; ignored fields must come back zero",
 			"not generated, as excluded by the property: nil pointers as elements of lists/maps, arrays directly as map values; an inline map next to a named sibling field",
@@ -419,9 +549,9 @@ func init() {
 		},
 		Spaces: func(tier string) []*core.Space {
 			if tier == "thorough" {
-				return []*core.Space{c06Space("depth<=2", 2, false), c06Space("depth3-reduced", 3, true)}
+				return []*core.Space{c06TagLayouts(), c06Space("depth<=2", 2, false), c06Space("depth3-reduced", 3, true)}
 			}
-			return []*core.Space{c06Space("depth<=2", 2, false)}
+			return []*core.Space{c06TagLayouts(), c06Space("depth<=2", 2, false)}
 		},
 	})
 }
